@@ -10,6 +10,7 @@ package lib
 import (
 	"bufio"
 	"encoding/hex"
+	"encoding/json"
 	"fmt"
 	"io"
 	"net"
@@ -108,8 +109,8 @@ func (s *vresp) count() int {
 // a UDP transport (the station's DTLS transport needs a DNAT device and a UDP listener; what matters here is GetProto)
 type vudpTransport struct{ min.Transport }
 
-func (vudpTransport) Name() string          { return "verif-udp" }
-func (vudpTransport) GetProto() pb.IPProto  { return pb.IPProto_Udp }
+func (vudpTransport) Name() string         { return "verif-udp" }
+func (vudpTransport) GetProto() pb.IPProto { return pb.IPProto_Udp }
 func (vudpTransport) GetIdentifier(d transports.Registration) string {
 	return string(core.ConjureHMAC(d.SharedSecret(), "verifUdpTransport"))
 }
@@ -293,4 +294,152 @@ func TestVerifDetectorAnnouncements(t *testing.T) {
 	}
 	srv.mu.Unlock()
 	out.Emit(map[string]any{"kind": "summary", "shapes": len(shapes), "published": srv.count()})
+}
+
+// ---------------------------------------------------------------- lifetime histories (Detector.tla: Duplicate, TickBy, StState)
+//
+// TestVerifDetectorLifetime replays TLC-generated histories over two registrations (a: IPv4 phantom, b: IPv6 phantom) on the real
+// station: Validate = the registration MESSAGE through parseRegMessage + ingestRegistration, Dup = the same message again (ingest
+// treats it as a duplicate: nothing may change, nothing is published), Activate = MarkActive of the tracked registration,
+// Tick(d) = every expiry record back-dated by d seconds followed by the sweep.  Every published message is recorded with the
+// logical time at which it was sent (the detector harness applies it under that clock), and after every operation the REAL
+// station's view of both registrations (tracked at all, marked used) is recorded for Trace_Detector.
+func TestVerifDetectorLifetime(t *testing.T) {
+	out := vOpenOut(t)
+	defer out.Close()
+	os.Setenv("PHANTOM_SUBNET_LOCATION", vingSubnetFile(t))
+	srv := vrespStart(t)
+	once.Do(func() {})
+	client = redis.NewClient(&redis.Options{Addr: srv.ln.Addr().String(), PoolSize: 1})
+	if _, err := client.Ping(context.Background()).Result(); err != nil {
+		t.Fatalf("stand-in redis: %v", err)
+	}
+	type regdef struct {
+		id         string
+		v6         bool
+		registrant net.IP
+		regtxt     string
+		regclass   string
+	}
+	defs := map[string]regdef{"a": {"a", false, net.ParseIP("198.51.100.7").To4(), "198.51.100.7", "v4"}, "b": {"b", true, net.ParseIP("2001:db8::7"), "2001:db8::7", "v6"}}
+	nbeh := 0
+	vReadLines(t, func(line []byte) {
+		var ops []struct {
+			A  string `json:"a"`
+			ID string `json:"id"`
+			Op string `json:"op"`
+			D  int64  `json:"d"`
+		}
+		if err := json.Unmarshal(line, &ops); err != nil {
+			t.Fatalf("behaviour: %v", err)
+		}
+		nbeh++
+		rm := NewRegistrationManager(&RegConfig{EnableIPv4: true, EnableIPv6: true})
+		rm.Logger = log.New(io.Discard, "", 0)
+		rm.LivenessTester = &vingLive{}
+		_ = rm.AddTransport(pb.TransportType_Min, min.Transport{})
+		// messages of the two registrations of this behaviour (secrets for which the selection in their family works)
+		raws := map[string][]byte{}
+		phantoms := map[string]net.IP{}
+		info := []map[string]any{}
+		for _, id := range []string{"a", "b"} {
+			d := defs[id]
+			for attempt := 0; attempt < 60; attempt++ {
+				secret := vSecret(fmt.Sprintf("life-%d-%s-%d", nbeh, id, attempt))
+				gen := uint32(957)
+				ver := core.CurrentClientLibraryVersion()
+				c4, c6, tr := !d.v6, d.v6, true
+				covert := "192.0.2.5:443"
+				tt := pb.TransportType_Min
+				c2s := &pb.ClientToStation{Transport: &tt, DecoyListGeneration: &gen, ClientLibVersion: &ver, V4Support: &c4, V6Support: &c6,
+					CovertAddress: &covert, Flags: &pb.RegistrationFlags{Prescanned: &tr}}
+				src := pb.RegistrationSource_API
+				raw, _ := proto.Marshal(&pb.C2SWrapper{SharedSecret: secret, RegistrationPayload: c2s, RegistrationSource: &src, RegistrationAddress: d.registrant})
+				regs, err := rm.parseRegMessage(raw)
+				if err == nil && len(regs) == 1 {
+					raws[id], phantoms[id] = raw, regs[0].PhantomIp
+					info = append(info, map[string]any{"id": id, "phantom": regs[0].PhantomIp.String(), "v6": d.v6, "port": int(regs[0].PhantomPort),
+						"proto": regs[0].PhantomProto.String(), "registrant": d.regtxt, "registrant_class": d.regclass})
+					break
+				}
+			}
+			if raws[id] == nil {
+				t.Fatalf("no usable secret for registration %s", id)
+			}
+		}
+		evs := []map[string]any{{"a": "Regs", "regs": info}}
+		var clock int64
+		state := func() {
+			tr, us := map[string]bool{}, map[string]bool{}
+			for _, id := range []string{"a", "b"} {
+				tr[id] = rm.CountRegistrations(phantoms[id]) > 0
+				us[id] = false
+				for _, to := range rm.registeredDecoys.decoysTimeouts {
+					if to.decoy == phantoms[id].String() && to.status == regStatusUsed {
+						us[id] = true
+					}
+				}
+			}
+			evs = append(evs, map[string]any{"a": "StState", "tracked": tr, "used": us})
+		}
+		waitPub := func(before, want int) [][]byte {
+			deadline := time.Now().Add(2 * time.Second)
+			for srv.count() < before+want && time.Now().Before(deadline) {
+				time.Sleep(100 * time.Microsecond)
+			}
+			if want == 0 {
+				time.Sleep(3 * time.Millisecond)
+			}
+			srv.mu.Lock()
+			defer srv.mu.Unlock()
+			return append([][]byte(nil), srv.pubs[before:]...)
+		}
+		for _, op := range ops {
+			before := srv.count()
+			switch op.A {
+			case "Publish":
+				if op.Op == "New" {
+					regs, err := rm.parseRegMessage(raws[op.ID])
+					if err != nil || len(regs) != 1 {
+						t.Fatalf("message of %s no longer parses: %v", op.ID, err)
+					}
+					rm.ingestRegistration(regs[0])
+				} else {
+					for _, r := range rm.registeredDecoys.getRegistrations(phantoms[op.ID]) {
+						rm.MarkActive(r)
+					}
+				}
+				got := waitPub(before, 1)
+				for _, p := range got {
+					evs = append(evs, map[string]any{"a": "Publish", "id": op.ID, "op": op.Op, "hex": hex.EncodeToString(p), "clock": clock})
+				}
+				if len(got) != 1 {
+					evs = append(evs, map[string]any{"a": "PublishCount", "id": op.ID, "op": op.Op, "n": len(got)})
+				}
+			case "Dup":
+				regs, err := rm.parseRegMessage(raws[op.ID])
+				if err != nil || len(regs) != 1 {
+					t.Fatalf("message of %s no longer parses: %v", op.ID, err)
+				}
+				rm.ingestRegistration(regs[0])
+				got := waitPub(before, 0)
+				evs = append(evs, map[string]any{"a": "Dup", "id": op.ID})
+				for _, p := range got {
+					evs = append(evs, map[string]any{"a": "Publish", "id": op.ID, "op": "unexpected", "hex": hex.EncodeToString(p), "clock": clock})
+				}
+			case "Tick":
+				rm.registeredDecoys.m.Lock()
+				for _, to := range rm.registeredDecoys.decoysTimeouts {
+					to.registrationTime = to.registrationTime.Add(-time.Duration(op.D) * time.Second)
+				}
+				rm.registeredDecoys.m.Unlock()
+				clock += op.D
+				rm.RemoveOldRegistrations()
+				evs = append(evs, map[string]any{"a": "Tick", "d": op.D, "clock": clock})
+			}
+			state()
+		}
+		out.Emit(map[string]any{"kind": "history", "n": nbeh, "events": evs})
+	})
+	out.Emit(map[string]any{"kind": "summary", "behaviours": nbeh})
 }
